@@ -610,6 +610,7 @@ func (st *State) load(p Pointer, t types.Type) Value {
 		st.rtPanic("invalid memory address or nil pointer dereference")
 	}
 	l := st.eng.layout(t)
+	p = st.normPtr(p)
 	st.raceAccess(p, l.n, false)
 	if !l.agg {
 		if p.sidx == nil {
@@ -630,6 +631,17 @@ func (st *State) load(p Pointer, t types.Type) Value {
 		a[k] = st.loadSlot(p, k, l.leaf[k])
 	}
 	return a
+}
+
+// normPtr resolves a symbolic index that has been concretized on this path.
+func (st *State) normPtr(p Pointer) Pointer {
+	if p.sidx != nil {
+		if k, ok := st.known[p.sidx.id]; ok {
+			p.off += int(k) * p.stride
+			p.sidx = nil
+		}
+	}
+	return p
 }
 
 func (st *State) storeSlotSym(p Pointer, k int, v Value, lt types.Type) {
@@ -653,6 +665,7 @@ func (st *State) store(p Pointer, t types.Type, v Value) {
 		st.rtPanic("invalid memory address or nil pointer dereference")
 	}
 	l := st.eng.layout(t)
+	p = st.normPtr(p)
 	st.raceAccess(p, l.n, true)
 	if !l.agg {
 		if p.sidx == nil {
@@ -759,7 +772,7 @@ func (st *State) set(fr *Frame, v ssa.Value, val Value) {
 // ---------- package init ----------
 
 var initSkip = map[string]bool{
-	"runtime": true, "errors": true, "net/netip": false, "os": true, "syscall": true, "net": true, "time": true, "reflect": true,
+	"runtime": true, "errors": true, "net/netip": false, "os": true, "syscall": true, "net": false, "time": true, "reflect": true,
 	"sync": true, "sync/atomic": true, "unsafe": true, "fmt": true, "log": true, "io": true, "bufio": true,
 	"unicode": true, "strings": false, "bytes": false, "context": true, "math/rand": true, "math/rand/v2": true,
 	"net/http": true, "encoding/json": true, "crypto/rand": true, "os/signal": true, "io/fs": true, "path/filepath": true,
